@@ -11,16 +11,30 @@ Local Open Scope Z_scope.
 (* ---- fixStaleLocks ----
    One snapshot per evaluation of the loop condition: (CountWorkers()[StateUnknown] > 0, pool.Running(),
    queue.Entries()).  The list ends when the stale-lock timer fires while the loop is waiting.  Result: the
-   uuids passed to queue.Unlock.  Note that when the loop ends because no worker is Unknown any more, the
-   list computed in the PREVIOUS iteration is unlocked. *)
+   uuids passed to queue.Unlock.  When the loop ends because no worker is Unknown any more, the list computed
+   in the previous iteration is used, but (since /repo commit 05ee31b, finding F24) containers that
+   pool.Running() reports at that moment are skipped. *)
+Definition not_running (running : rmap) (u : N) : bool :=
+  match rlook u running with Some _ => false | None => true end.
 Fixpoint fix_stale_locks (snaps : list (bool * rmap * list ent)) (stale : list N) : list N :=
+  match snaps with
+  | [] => stale        (* timer fired: Running() is the one the list was computed from *)
+  | (unknown, running, ents) :: rest =>
+      if negb unknown then filter (not_running running) stale
+      else match stale_locks ents running with
+           | [] => []                         (* return: nothing is stale *)
+           | st => fix_stale_locks rest st
+           end
+  end.
+(* the behaviour before that commit (kept as a regression witness only) *)
+Fixpoint fix_stale_locks_old (snaps : list (bool * rmap * list ent)) (stale : list N) : list N :=
   match snaps with
   | [] => stale
   | (unknown, running, ents) :: rest =>
       if negb unknown then stale
       else match stale_locks ents running with
-           | [] => []                         (* return: nothing is stale *)
-           | st => fix_stale_locks rest st
+           | [] => []
+           | st => fix_stale_locks_old rest st
            end
   end.
 
